@@ -16,7 +16,8 @@ GEN_DEPS = []
 RULE = ('application trees (1-12 routes over a vocabulary full of byte-prefix pairs, depth <= 3, params, 0-2 levels of mounts with static and param prefixes, random method subsets, fangs at '
         'any level) each in two registration orders x 24 requests (every kind of mutation of instantiated routes: extra/empty segments, trailing slashes, shared byte prefixes, percent-escapes, '
         'other methods, HEAD); non-trivial = the app has a static/param sibling pair or a mount, and the request is not a verbatim instantiation; distinct by canonical JSON')
-ASSUMPTIONS = ['a route captures at most two params (the framework stores two); static segments are compared as raw bytes; a param never matches an empty segment',
+ASSUMPTIONS = ['a mount prefix is a static/param alternative in the tree of every method (C04 requires the fangs of the mounted application to run for every request under its prefix, whatever the method): a path whose statics-first walk enters a mount prefix is answered inside it',
+               'a route captures at most two params (the framework stores two); static segments are compared as raw bytes; a param never matches an empty segment',
                'OPTIONS requests are the subject of C14']
 
 
@@ -46,6 +47,11 @@ def corpus():
         {'app': {'fangs': [], 'items': [R('/a/b', 1), R('/:x/c', 2), R('/a/d', 3)]}, 'reqs': [q('GET', '/a/c'), q('GET', '/a/d')]},
         {'app': {'fangs': [], 'items': [R('/', 1), R('/:a/:b', 2, ('GET', 'POST'))]}, 'reqs': [q('GET', '/'), q('GET', '//'), q('POST', '/x/y'), q('GET', '/x//'), q('GET', '/x/%2F'), q('PUT', '/x/y')]},
         {'app': {'fangs': [1], 'items': [{'mount': '/t/:tenant', 'app': {'fangs': [2], 'items': [R('/u/:id', 5)]}}, R('/t', 6)]}, 'reqs': [q('GET', '/t/a/u/b'), q('GET', '/t'), q('GET', '/t/a'), q('GET', '/t/a/u')]},
+        # fixed by 8878fb7: a route of the parent under the prefix of a later mount; the mounted routes were unreachable (param twin) or start-up panicked (static twin)
+        {'app': {'fangs': [], 'items': [R('/a/:v/:x/abc', 1, ('PATCH',)), {'mount': '/a', 'app': {'fangs': [], 'items': [R('/:v', 2, ('PATCH', 'GET'))]}}]},
+         'reqs': [q('PATCH', '/a/7'), q('GET', '/a/7'), q('PATCH', '/a/7/8/abc'), q('PATCH', '/a/7/8')]},
+        {'app': {'fangs': [], 'items': [R('/a/b', 1), {'mount': '/a', 'app': {'fangs': [], 'items': [R('/b', 2, ('POST',)), R('/b/c', 3)]}}, R('/a/b/c', 4, ('PUT',))]},
+         'reqs': [q('GET', '/a/b'), q('POST', '/a/b'), q('GET', '/a/b/c'), q('PUT', '/a/b/c'), q('DELETE', '/a/b')]},
     ]
     return [{'case': dict(c, app2=c['app'], stop=None)} for c in cases]
 
@@ -55,7 +61,7 @@ def generate(rng, tier):
     out = []
     for _ in range(n):
         ids = appgen.Ids()
-        app = appgen.gen_app(rng, ids, fangs=rng.random() < 0.5, local=False)
+        app = appgen.gen_app(rng, ids, fangs=rng.random() < 0.5, local=False, free=rng.random() < 0.5)
         if not appgen.flat_routes(app): continue
         out.append(mk(rng, app))
     return out
@@ -75,7 +81,7 @@ def greedy_literal(routes, segs):
         elif s != b'': cand = [r for r in cand if len(r[0]) > i and r[0][i] is None]
         else: cand = []
         if not cand: return None
-    done = [r for r in cand if len(r[0]) == len(segs)]
+    done = [r for r in cand if len(r[0]) == len(segs) and r[2] is not None]
     return done[0][2] if done else None
 
 
@@ -105,7 +111,8 @@ def spec_check_one(app, req, out):
         if (req['m'] == 'HEAD') == out['body']: return 'HEAD must be answered without a body, other methods with one'
     else:
         if out['status'] != 404: return f'no handler ran but status {out["status"]}'
-        if matching and greedy_literal(routes, segs) is not None:
+        # a mount point is a node of every method's tree (the mounted application's fangs must see its 404s, C04): the walk may enter it and miss there
+        if matching and greedy_literal(routes + [(p, [], None, []) for p in appgen.mount_prefixes(app)], segs) is not None:
             return f'404 although route {matching[0][0]} matches and the statics-first walk reaches a handler'
     return None
 
